@@ -373,7 +373,9 @@ def stagePath (opt : Option Language) (path : List Char) : Except LErr PathStage
     | .error e => .error e
     | .ok (some l) => .ok ⟨some l, "pathname", 1⟩
     | .ok none =>
-      if ".po".toList.isSuffixOf path then
+      -- `os.path.splitext(self.path)[-1] == '.po'` (the extension of a path is the extension of its base name); before
+      -- /repo d16b49e the test was `self.path.endswith('.po')`, which let `.po`, `..po` through to the assertion
+      if (splitext (basename path)).2 = ".po".toList then
         match basenameLanguage path with
         | .error e => .error e
         | .ok (some l) => .ok ⟨some l, "pathname", 0⟩
